@@ -438,21 +438,25 @@ Theorem C11_main_declined_discarded : forall b m m' tr, mb_regen b = RNone -> ra
 Proof. exact step_declined_discarded. Qed.
 Print Assumptions C11_main_declined_discarded.
 
-(* saved results that the module accepts are kept when the module does not run - for results objects
-   that are truthy *)
-Theorem C11_main_accepted_kept_partial : forall b m id t0 i, mget (mb_name b) m = Some (MRaw id t0) ->
-  mb_regen b = RRes i true -> ran b = false ->
-  exists tr, run_module b m = Ok (mremove (mb_name b) m ++ [(mb_name b, MRes i true)], tr).
+(* saved results that the module accepts are kept when the module does not run - for EVERY results object,
+   whatever its truth value (the former guard "truthy" is gone with the repair of FC11a: run_module now tests
+   `results is not None`) *)
+Theorem C11_main_accepted_kept : forall b m id t0 i t, mget (mb_name b) m = Some (MRaw id t0) ->
+  mb_regen b = RRes i t -> ran b = false ->
+  exists tr, run_module b m = Ok (mremove (mb_name b) m ++ [(mb_name b, MRes i t)], tr).
 Proof. exact step_accepted_kept. Qed.
-Print Assumptions C11_main_accepted_kept_partial.
+Print Assumptions C11_main_accepted_kept.
 
-(* the full clause is false: accepted results whose truth value is False (TTAResults without codons:
-   __len__ == 0) are dropped by `if results:` (finding FC11a) *)
-Theorem C11_main_accepted_kept_refuted :
-  exists b m m' tr id t0 i, mget (mb_name b) m = Some (MRaw id t0) /\ mb_regen b = RRes i false /\
-    ran b = false /\ beh_contract b = true /\ run_module b m = Ok (m', tr) /\ forall e, ~ In (mb_name b, e) m'.
-Proof. exact accepted_falsy_dropped. Qed.
-Print Assumptions C11_main_accepted_kept_refuted.
+(* the class of the repaired finding FC11a, stated positively (formerly C11_main_accepted_kept_refuted): accepted
+   results whose truth value is False (TTAResults without codons: __len__ == 0) and a module that does not run -
+   whenever run_module returns, the module's entry is exactly the regenerated results object, and nothing else
+   is stored under its name *)
+Theorem C11_main_accepted_falsy_kept : forall b m m' tr id t0 i, mget (mb_name b) m = Some (MRaw id t0) ->
+  mb_regen b = RRes i false -> ran b = false -> run_module b m = Ok (m', tr) ->
+  mget (mb_name b) m' = Some (MRes i false) /\ In (mb_name b, MRes i false) m' /\
+  forall e, In (mb_name b, e) m' -> e = MRes i false.
+Proof. exact accepted_falsy_kept. Qed.
+Print Assumptions C11_main_accepted_falsy_kept.
 
 (* when the module runs and returns new results, exactly those are in hand, at the end of the dict *)
 Theorem C11_main_ran_new : forall b m m' tr i t, ran b = true -> mb_run b = UNew i t ->
@@ -499,7 +503,7 @@ Proof. repeat split; vm_compute; reflexivity. Qed.
 
 (* the decidable specification used at run time (fn 19) is met by the model itself: under the guard (the entry
    of every visited module saved JSON or absent, modules visited once, honouring their interface and not
-   raising, no accepted falsy results left unrun) the run does not die ... *)
+   raising; accepted falsy results left unrun are no longer excluded) the run does not die ... *)
 Theorem C11_main_total_under_guard : forall mode bs m, guard bs m = true ->
   exists m' tr, pipeline mode bs m = Ok (m', tr).
 Proof. exact pipeline_total. Qed.
@@ -517,5 +521,12 @@ Example C11_ex_main_guard :
   guard [mkBeh 1 (RRes 50 true) false false (UNew 60 true); mkBeh 2 RNone false true (UNew 61 true);
          mkBeh 3 RNone true true (UNew 62 true)]
         [(1, MRaw 41 true); (2, MRaw 42 true); (3, MRaw 43 true)] = true /\
-  guard [mkBeh 1 (RRes 50 false) false false (UNew 60 true)] [(1, MRaw 41 true)] = false.
-Proof. split; vm_compute; reflexivity. Qed.
+  (* the witness of the repaired FC11a lies under the guard, the model keeps the falsy results and the
+     specification accepts exactly that - and rejects the map the unrepaired code left (entry vanished) *)
+  guard [mkBeh 1 (RRes 50 false) false false (UNew 60 true)] [(1, MRaw 41 true)] = true /\
+  analyse_record [mkBeh 1 (RRes 50 false) false false (UNew 60 true)] [(1, MRaw 41 true)]
+    = Ok ([(1, MRes 50 false)], [1; 1; 41]) /\
+  spec_final [mkBeh 1 (RRes 50 false) false false (UNew 60 true)] [(1, MRaw 41 true)] [(1, MRes 50 false)] true = true /\
+  spec_final [mkBeh 1 (RRes 50 false) false false (UNew 60 true)] [(1, MRaw 41 true)] [] true = false /\
+  guard [mkBeh 1 (RJunk 50 true) false false (UNew 60 true)] [(1, MRaw 41 true)] = false.
+Proof. repeat split; vm_compute; reflexivity. Qed.
